@@ -1546,7 +1546,7 @@ impl Check for W5Check {
         out
     }
     fn rule(&self) -> String {
-        let base = "single-threaded preparation (random rawdb history leaving holes / pending holes / partially used reserves, per-thread regions, vectors with a committed prefix, file at or below a growth threshold), then 2-4 real threads under the controller: exactly one runs at a time, every lock arrival/acquisition/release, condvar wait/notify, spawn/join and named pause point is a scheduling point; writer-preferring RwLock model (a queued writer blocks new readers, arrival is its own step); strategies per run: uniform, sticky(90/60), PCT d=2/3, directed (preempt after pause points); discrete-event condvar timeouts with optional early firing. distinct interleavings = distinct hashes of the (thread, point kind, lock class, mode) decision sequence; non-trivial = more than two context switches. ";
+        let base = "single-threaded preparation (random rawdb history leaving holes / pending holes / partially used reserves, per-thread regions, vectors with a committed prefix, file at or below a growth threshold), then 2-4 real threads under the controller: exactly one runs at a time, every lock arrival/acquisition/release, condvar wait/notify, spawn/join and named pause point is a scheduling point; writer-preferring RwLock model (a queued writer blocks new readers, arrival is its own step); strategies per run: uniform, sticky(90/60), PCT d=2/3, directed (preempt after pause points), hold-back of nested lock arrivals (p=100/90); discrete-event condvar timeouts with optional early firing. distinct interleavings = distinct hashes of the (thread, point kind, lock class, mode) decision sequence; non-trivial = more than two context switches. ";
         match self.id {
             "C09" => format!("{base}C09: one writer appends g(i) (all distinct) in batches around the page capacity with write/flush/commit; 1-2 readers observe len through read-only clones and then read below it via collect_range / collect_one / cursor / for_each (mmap and file-I/O back-ends): every value must equal g(i), lengths never decrease, no panic, no deadlock"),
             "C10" => format!("{base}C10: each thread runs create/append/write_at/truncate/rename/remove/flush/compact ops on its own regions (and pushes+writes its own vector) and compares its regions with its own model after every op; at quiescence the C02 extent invariant and every model are checked; one thread may hold a Reader on another thread's append-only region while that region is relocated, flushed and its old extent reused: bytes below the snapshot length must be the original ones"),
